@@ -12,7 +12,7 @@ VARIABLE l
 tvars == <<vars, l>>
 TInit == Init /\ l = 1
 Ev == Rec[l]
-Entry(e) == IF e.kind = "notify" THEN <<"notify">>
+Entry(e) == IF e.kind = "notify" THEN <<"notify", e.ver>>
             ELSE IF e.kind = "err" THEN <<"err", e.q, e.code, e.ver>> ELSE <<e.kind, e.q, e.ver>>
 TNext ==
     /\ l <= Len(Rec)
@@ -29,7 +29,11 @@ TNext ==
          \* detail beyond the statement and is not compared here (the replay reports a difference as a beyond-property note)
          [] Ev.ev = "out"     -> /\ (Respond \/ SelectNotify) /\ Len(out') = Len(out) + 1
                                  /\ LET w == out'[Len(out')]  g == Entry(Ev) IN
-                                      IF w[1] = "err" /\ g[1] = "err" THEN w[2] = g[2] ELSE w = g
+                                      IF w[1] = "err" /\ g[1] = "err" THEN w[2] = g[2]
+                                      \* before a version is negotiated the octet of a Serial Notify is the implementation's choice
+                                      \* (that it is the same in every run is checked over all runs by the harness)
+                                      ELSE IF w[1] = "notify" /\ connVer = NoneV THEN g[1] = "notify"
+                                      ELSE w = g
          [] Ev.ev = "end"     -> (Respond /\ closed' /\ out' = out) \/ (closed /\ UNCHANGED vars)
          [] OTHER -> FALSE
 TraceSpec == TInit /\ [][TNext]_tvars
